@@ -528,6 +528,17 @@ Proof.
   split; [right; left; reflexivity|]. split; [reflexivity|]. split; [cbn; lia|]. cbn. intros H. exact H.
 Qed.
 
+(* ------------------------------------------------------------------ the spelling of the plugin directory *)
+
+(* C18_executes_what_it_discovered: whatever the plugin directory is called — absolute or relative to the runtime's
+   working directory — the file started is the file discovery looked at *)
+Theorem executes_what_it_discovered cwd dir name : executed_file cwd "" dir name = discovered_file cwd dir name.
+Proof. reflexivity. Qed.
+
+(* with cmd.Dir set to the plugin directory a relative directory is applied twice *)
+Theorem cmd_dir_refuted : exists cwd dir name, executed_file cwd dir dir name <> discovered_file cwd dir name.
+Proof. exists "/run", "plugins", "10-a". cbn. discriminate. Qed.
+
 (* ------------------------------------------------------------------ inherited descriptors *)
 
 Lemma exec_fds_all_cloexec n parent : Forall (fun f => fd_cloexec f = true) parent ->
